@@ -69,7 +69,9 @@ ShallowEmpty(x) ==
 
 \* is_deep_empty: looks through the nodes that only group other nodes
 RECURSIVE DeepEmpty(_)
-DeepEmpty(x) == IF x.kind \in {"Container", "Em", "Strong", "Strikeout", "Code", "Sup"}
+DeepEmpty(x) == IF x.kind \in {"Container", "Em", "Strong", "Strikeout", "Code", "Sup",
+                                \* (blocks that only group their children)
+                                "Block", "Div", "BlockQuote", "Ul", "Ol", "Dl", "Dt", "Dd", "ListItem"}
                 THEN \A i \in 1..Len(x.c) : DeepEmpty(x.c[i])
                 ELSE IF x.kind \in {"Table", "TableBody"}        \* a table is empty if all its cells are
                 THEN \A i \in 1..Len(x.c) : \A j \in 1..Len(x.c[i].c) : \A k \in 1..Len(x.c[i].c[j].c) : DeepEmpty(x.c[i].c[j].c[k])
